@@ -55,7 +55,7 @@ namespace internal
 		DataRawIterator& operator+=(ptrdiff_t diff)
 		{
 			const Raws* raws = pvGetRaws();
-			size_t newIndex = static_cast<size_t>(static_cast<ptrdiff_t>(pvGetIndex()) + diff);
+			size_t newIndex = pvGetIndex() + static_cast<size_t>(diff);
 			(void)raws; (void)newIndex;
 			MOMO_CHECK((raws != nullptr) ? newIndex <= raws->GetCount() : diff == 0);
 			ArrayIndexIterator::operator+=(diff);
